@@ -127,7 +127,7 @@ func rawBytecodes() map[string]*ugo.Bytecode {
 			Main:      &ugo.CompiledFunction{Instructions: []byte("test instructions"), NumParams: 1, NumLocals: 4, Variadic: true, SourceMap: map[int]int{0: 1, 1: 2}},
 			Constants: gobConsts,
 		},
-		"raw-fileset": {FileSet: fs, Main: &ugo.CompiledFunction{Instructions: inst(opv1.OpReturn, 0)}, NumModules: 300},
+		"raw-fileset":      {FileSet: fs, Main: &ugo.CompiledFunction{Instructions: inst(opv1.OpReturn, 0)}, NumModules: 300},
 		"raw-fileset-only": {FileSet: fs},
 	}
 }
